@@ -17,7 +17,7 @@ Notation satb := (satb lit re_search tm).
 
 Lemma satb_inv v : satb v = true -> satisfies lit re_search tm v.
 Proof.
-  unfold PathsEnum.satb, satisfies. destruct (term_matches lit re_search tm v) as [[|]| |]; auto; discriminate.
+  unfold PathsEnum.satb, satisfies. destruct (term_matches lit re_search tm (node_hay v)) as [[|]| |]; auto; discriminate.
 Qed.
 
 Lemma satb_of v : satisfies lit re_search tm v -> satb v = true.
@@ -39,11 +39,11 @@ Lemma good_justified d h :
 Proof.
   unfold justified. intros [l0 [tgt [r [El [R L]]]]]. destruct (h_kind h); simpl in L; try contradiction.
   - destruct L as [Hk [i [kvs [kn [v [-> [Hin [-> Hs]]]]]]]]. split; auto.
-    exists (key_val kn). split; [|apply satb_inv; auto]. exists l0, i, kvs, kn, v. auto.
+    exists kn. split; [|apply satb_inv; auto]. exists l0, i, kvs, v. auto.
   - destruct L as [Hv [i [v [Hc Hs]]]]. split; auto.
-    exists v. split; [|apply satb_inv; auto]. exists l0, tgt, r, i. auto.
+    exists (NLeaf i v). split; [|apply satb_inv; auto]. exists l0, tgt, r. auto.
   - destruct L as [i [els [m [-> [Hin [-> Hs]]]]]].
-    exists (key_val m). split; [|apply satb_inv; auto]. exists l0, i, els, m. auto.
+    exists m. split; [|apply satb_inv; auto]. exists l0, i, els. auto.
 Qed.
 
 Theorem sound d res :
@@ -60,9 +60,10 @@ Qed.
 Lemma wanted_good d l :
   wanted lit re_search tm o d l -> exists k, good lit re_search tm o d l k.
 Proof.
-  intros [[Hv [v [[l0 [p [r [i [-> [R Hc]]]]]] Hs]]]|[[Hk [k [[l0 [i [kvs [kn [v [-> [R [Hin <-]]]]]]]] Hs]]]
-                                                  |[k [[l0 [i [els [m [-> [R [Hin <-]]]]]]] Hs]]]].
-  - exists HValue, l0, p, r. split; [reflexivity|]. split; auto. simpl. split; auto.
+  intros [[Hv [s [[l0 [p [r [-> [R [Hc Hl]]]]]] Hs]]]|[[Hk [kn [[l0 [i [kvs [v [-> [R Hin]]]]]] Hs]]]
+                                                  |[m [[l0 [i [els [-> [R Hin]]]]] Hs]]]].
+  - destruct s as [i v| | |]; try discriminate.
+    exists HValue, l0, p, r. split; [reflexivity|]. split; auto. simpl. split; auto.
     exists i, v. split; auto. apply satb_of; auto.
   - exists HKey, l0, (NMap i kvs), (key_ref kn). split; [reflexivity|]. split; auto. simpl. split; auto.
     exists i, kvs, kn, v. repeat split; auto. apply satb_of; auto.
